@@ -51,6 +51,17 @@ def drop(p, k):
         ins.append(ni)
     q = dict(p)
     q['ins'] = ins
+    if 'mce' in q:
+        gs = []
+        for s0, n in q['mce']:
+            if k < s0:
+                gs.append([s0 - 1, n])
+            elif k < s0 + n:
+                if n - 1 >= 2:
+                    gs.append([s0, n - 1])
+            else:
+                gs.append([s0, n])
+        q['mce'] = gs
     return q
 
 
